@@ -104,6 +104,28 @@ Definition lookup_present_legacy (p : dprov) (k : string) : outcome bool :=
   | _ => lookup_present p k
   end.
 
+(** fields promoted from an embedded pointer: [behind_nil] names the fields whose embedded pointer is
+    nil.  Repaired: the field is resolved through the type and FieldByIndexErr, an unreachable field is
+    absent.  Legacy: reflect's FieldByName panics on the way to it, whether or not it is exported. *)
+Definition lookup_promoted (behind_nil : list string) (p : dprov) (k : string) : outcome bool :=
+  if existsb (String.eqb k) behind_nil then Done false else lookup_present p k.
+Definition lookup_promoted_legacy (behind_nil : list string) (p : dprov) (k : string) : outcome bool :=
+  if existsb (String.eqb k) behind_nil then Panic "reflect: indirection through nil pointer to embedded struct" else lookup_present p k.
+
+(** PathBuilder.String as it was: the first byte of every segment that follows a non-empty one is
+    read, so an empty segment there (a field keyed [zog:""] below another key) is an index out of
+    range.  Repaired: [render_from] (Model/Engine.v) writes an empty segment like any other key. *)
+Fixpoint render_legacy (prev : string) (segs : list string) : outcome string :=
+  match segs with
+  | [] => Done ""
+  | v :: r =>
+    if negb (is_empty prev) && is_empty v then Panic "index out of range [0] with length 0"
+    else match render_legacy v r with
+         | Panic w => Panic w
+         | Done t => Done ((if negb (is_empty prev) && negb (starts_with_bracket v) then "." else "") ++ v ++ t)
+         end
+  end.
+
 (** upper-casing the first byte of a schema key (struct.go): any length *)
 Definition field_name (key : string) : outcome string :=
   match key with
